@@ -11,20 +11,22 @@ Open Scope Z_scope.
 
 (* One accepted operation (outcome Done), from ANY state satisfying the invariant, with any arguments
    inside the guard (existing objects; listing operations get detached layers): every child list of
-   the new state is what the plain-list operation gives.  Covers append, extend, insert, remove, pop,
-   clear, item assignment and deletion, delete_layer, move_to_group, move_up, move_down, Group.new (and
-   the setters / read-only operations, which leave the lists alone), for every code variant.
-   delete_layer / move_* / Group.new locate the object by its stored _parent in the model and by the
-   containing list in the specification: they agree because of invariant I1. *)
+   the new state is what the plain-list operation gives.  Covers all 26 modelled operations: append,
+   extend, insert, remove, pop, clear, item assignment and deletion, delete_layer, move_to_group,
+   move_up, move_down, Group.new, Group.group_layers (and the setters / read-only operations, which
+   leave the lists alone), for every code variant.  delete_layer / move_* / Group.new / group_layers
+   locate an object by its stored _parent in the model and by the containing list in the
+   specification: they agree because of invariant I1.  [refine_guard] is trivial except for
+   group_layers without explicit parent, where it asks that layers[0]._parent still lists layers[0]
+   (its negation is finding F-C09-2, refuted below). *)
 Theorem step_refines : forall s o v,
-  Inv s -> quiet s -> guard s o -> refined_op o = true -> snd (step s o) = Done v ->
+  Inv s -> quiet s -> guard s o -> refine_guard s o -> snd (step s o) = Done v ->
   forall a, kid_ids (fst (step s o)) a = sp_apply (all_ids s) (next s) (is_container s) (kid_ids s) o a.
 Proof. intros s o v HI Q. apply ProofsRefine.step_refines. split; assumption. Qed.
 Print Assumptions step_refines.
 
-(* All histories of any length: the model's lists and plain lists run side by side stay equal.
-   step_refines_partial: Group.group_layers is not in [refined_op] (its list effect is compared by the
-   plain-list oracle of harness/vh/c09.py on every run; see also group_layers_stale_parent_refuted). *)
+(* All histories of any length: the model's lists and plain lists run side by side stay equal
+   ([accepted]: every step answered Done and satisfied refine_guard; refused steps: Properties/C10.v). *)
 Theorem history_refines : forall h s L,
   Inv s -> quiet s -> guards_r s h -> accepted s h ->
   (forall a, kid_ids s a = L a) -> forall a, kid_ids (run s h) a = sp_run s L h a.
@@ -35,8 +37,9 @@ Print Assumptions history_refines.
 Definition cfg_now : cfg := mkCfg true true true true true.
 Example refines_example :
   let s := run (empty_state_v cfg_now) init1 in
-  let h := [MoveToGroup 3 0; Insert 2 (-1) 6; MoveUp 4 (-2); DeleteLayer 5; Pop 1 0] in
-  (Inv s /\ quiet s) /\ map (fun a => kid_ids (run s h) a) [0; 1; 2] = [[1; 3]; [2]; [6]].
+  let h := [MoveToGroup 3 0; Insert 2 (-1) 6; MoveUp 4 (-2); GroupLayers [4; 5] None; Pop 1 0] in
+  (Inv s /\ quiet s) /\ map (fun a => kid_ids (run s h) a) [0; 1; 2; 7]
+                       = map (fun a => sp_run s (kid_ids s) h a) [0; 1; 2; 7].
 Proof. split; [split; [apply Invb_iff; vm_compute; reflexivity | left; reflexivity] | vm_compute; reflexivity]. Qed.
 
 (* refused operations: see Properties/C10.v (the invariant is kept; late refusals are findings) *)
